@@ -13,11 +13,12 @@ Struct fields are exported (a Go program can not set the others), map keys are
 the modelled fragment.
 
 Conventions
-* A Go panic is `Res.panic`.  Go-map iteration order is not modelled: where the
-  code loops over a Go map and the outcome could depend on the order (one
-  member fails with an error, another one panics) the model says `unmodelled`
-  (`combAll`).  Sequential loops (`seqAll`) stop at the first failure, as the
-  code does.
+* A Go panic is `Res.panic`.  Go-map iteration order: `FromCtyValue` into a struct
+  takes a schedule parameter (`Sched`, see `combSched`); in `ToCtyValue` and
+  `ImpliedType`, where the code loops over a Go map and the outcome could depend
+  on the order (one member fails with an error, another one panics), the model
+  says `unmodelled` (`combAll`).  Sequential loops (`seqAll`) stop at the first
+  failure, as the code does.
 * `norm` is `ctystrings.Normalize` (Unicode NFC), an external library: a
   parameter, instantiated by an oracle column in the driver.
 * The target of `FromCtyValue` starts out as the zero value of its type (the
@@ -94,6 +95,17 @@ def tagsDistinct : List String → Bool
   | [] => true
   | t :: ts => (t == "" || !ts.contains t) && tagsDistinct ts
 
+/-- no key occurs twice -/
+def keysDistinct : List String → Bool
+  | [] => true
+  | k :: ks => !ks.contains k && keysDistinct ks
+
+/-- `structTagIndices` keeps, of several fields with one tag, the last: the tags with every
+earlier duplicate blanked (such a field is as good as untagged) -/
+def effTags : List String → List String
+  | [] => []
+  | t :: ts => (if t != "" && ts.contains t then "" else t) :: effTags ts
+
 /-- insertion into a strictly ascending list of names -/
 def insertName (k : String) : List String → List String
   | [] => [k]
@@ -155,6 +167,23 @@ def taggedNames : List String → List String
   | [] => []
   | t :: ts => if t = "" then taggedNames ts else t :: taggedNames ts
 
+/-- `impliedStructType` once the field types are known: `etags` are the effective tags,
+`rs` one result per tagged field.  `cty.Object` normalises the attribute names; two tags
+with one normal form collide there and Go's map order picks the survivor (`unmodelled`). -/
+def impliedStruct (norm : String → String) (etags : List String) (rs : List (Res Ty)) : Res Ty :=
+  let ks := taggedNames etags
+  if ks.isEmpty then .err "no cty field tags"
+  else if !keysDistinct (ks.map norm) then .unmodelled
+  else
+    match combAll rs with
+    | .ok ts =>
+      let nks := ks.map norm
+      let names := sortNames nks
+      .ok (.object names (names.map fun k => (lookupKey k nks ts).getD .dyn) (names.map fun _ => false))
+    | .err c => .err c
+    | .panic w => .panic w
+    | .unmodelled => .unmodelled
+
 mutual
 /-- `impliedType`.  With `ext = true` arrays and big numbers are mapped to the
 "corresponding list and number types" the property speaks of (`ImpliedType`
@@ -183,18 +212,7 @@ def impliedG (norm : String → String) (ext : Bool) : GoTy → Res Ty
   | .bigFloat => if ext then .ok .number else .err "no cty field tags"
   | .cval => .ok .dyn
   | .struct tags tys =>
-    -- impliedStructType
-    let ks := taggedNames tags
-    if ks.isEmpty then .err "no cty field tags"
-    else if !tagsDistinct tags || ks.map norm != ks then .unmodelled
-    else
-      match combAll (impliedFields norm ext tags tys) with
-      | .ok ts =>
-        let names := sortNames ks
-        .ok (.object names (names.map fun k => (lookupKey k ks ts).getD .dyn) (names.map fun _ => false))
-      | .err c => .err c
-      | .panic w => .panic w
-      | .unmodelled => .unmodelled
+    impliedStruct norm (effTags tags) (impliedFields norm ext (effTags tags) tys)
 /-- one result per *tagged* field, in declaration order -/
 def impliedFields (norm : String → String) (ext : Bool) : List String → List GoTy → List (Res Ty)
   | t :: tags, T :: tys =>
@@ -227,6 +245,12 @@ def tysOf : List Value → List Ty
   | [] => []
   | v :: vs => v.ty :: tysOf vs
 
+/-- `cty.CanListVal` / `CanMapVal`: the element-type loop would not panic -/
+def canListVal (ws : List Value) : Bool :=
+  match elemTypeOf .dyn ws with
+  | .panic _ => false
+  | _ => true
+
 def listVal (ws : List Value) : Res Value :=
   if ws.isEmpty then .panic "must not call ListVal with empty slice"
   else
@@ -245,11 +269,6 @@ def mapVal (ks : List String) (ws : List Value) : Res Value :=
     | .err c => .err c
     | .panic w => .panic w
     | .unmodelled => .unmodelled
-
-/-- no key occurs twice -/
-def keysDistinct : List String → Bool
-  | [] => true
-  | k :: ks => !ks.contains k && keysDistinct ks
 
 /-- insertion of a key/value pair into parallel lists sorted by key -/
 def insertKV (k : String) (w : Value) : List String → List Value → List String × List Value
@@ -368,7 +387,7 @@ def toCtyG (norm : String → String) (pass : Bool) : GoVal → Ty → Res Value
        if vs.isEmpty then .ok ⟨.list ety, .seq []⟩
        else
          (match seqAll (toCtyL norm vs ety) with
-          | .ok ws => listVal ws
+          | .ok ws => if !canListVal ws then .err "all list elements must have the same type" else listVal ws
           | .err c => .err c
           | .panic w => .panic w
           | .unmodelled => .unmodelled)
@@ -389,7 +408,7 @@ def toCtyG (norm : String → String) (pass : Bool) : GoVal → Ty → Res Value
        if vs.isEmpty then .ok ⟨.list ety, .seq []⟩
        else
          (match seqAll (toCtyL norm vs ety) with
-          | .ok ws => listVal ws
+          | .ok ws => if !canListVal ws then .err "all list elements must have the same type" else listVal ws
           | .err c => .err c
           | .panic w => .panic w
           | .unmodelled => .unmodelled)
@@ -408,7 +427,8 @@ def toCtyG (norm : String → String) (pass : Bool) : GoVal → Ty → Res Value
        else
          (match combAll (toCtyL norm vs ety) with
           | .ok ws =>
-            if ks.map norm != ks then
+            if !canListVal ws then .err "all map elements must have the same type"
+            else if ks.map norm != ks then
               -- `cty.MapVal` normalises the keys; two Go keys with one normal form: Go map order decides
               (if !keysDistinct (ks.map norm) then .unmodelled
                else mapVal (sortKV (ks.map norm) ws).1 (sortKV (ks.map norm) ws).2)
@@ -430,9 +450,9 @@ def toCtyG (norm : String → String) (pass : Bool) : GoVal → Ty → Res Value
     (match ty with
      | .object names atys _ =>
        if names.isEmpty then .ok (objectVal [] [])
-       else if !tagsDistinct tags then .unmodelled
        else
-         (match combAll (attrResults names atys (taggedNames tags) (toCtyF norm tags vs names atys)) with
+         (match combAll (attrResults names atys (taggedNames (effTags tags))
+             (toCtyF norm (effTags tags) vs names atys)) with
           | .ok ws => .ok (objectVal names ws)
           | .err c => .err c
           | .panic w => .panic w
@@ -674,17 +694,66 @@ which `ForEachElement` visits the members -/
 def setOrder (ety : Ty) (cs : List Payload) (rs : List (Res GoVal)) : List (Res GoVal) :=
   ((zipPR cs rs).foldl (fun acc x => insertSorted ety x acc) []).map (·.2)
 
+/-! ### Go-map iteration order in `fromCtyObject`: a schedule
+
+`fromCtyObject` loops `for k := range attrTypes` and returns at the first attribute whose
+decoding fails; Go's map order decides which one that is, independently for every object
+met.  A schedule `S` gives, for the object being decoded (`S 0 names`) and — shifted — for
+the objects nested in it, the order in which the attribute names are visited.  (One order
+per nesting depth is as general as one per object: only the path down to the first failing
+member matters, and that path meets each depth once.) -/
+
+abbrev Sched := Nat → List String → List String
+
+/-- the schedule of the members of the current object -/
+def Sched.next (S : Sched) : Sched := fun n => S (n + 1)
+
+/-- attributes in ascending name order at every depth -/
+def idSched : Sched := fun _ names => names
+
+/-- a failure, re-typed -/
+def failureOf {α β} : Res α → Option (Res β)
+  | .ok _ => none
+  | .err c => some (.err c)
+  | .panic w => some (.panic w)
+  | .unmodelled => some .unmodelled
+
+def firstFailure {α β} : List (Res α) → Option (Res β)
+  | [] => none
+  | r :: rs =>
+    match failureOf r with
+    | some f => some f
+    | none => firstFailure rs
+
+/-- the per-attribute results `rs` (parallel to `names`) in the order `order` -/
+def inOrder {α} (order names : List String) (rs : List (Res α)) : List (Res α) :=
+  order.filterMap fun k => lookupKey k names rs
+
+/-- the loop over the attributes in the order `order`: the first failure met; should the order
+miss a failing attribute (it is not a permutation of the names), the first one in name order;
+all succeeded → the values, in name order -/
+def combSched {α} (order names : List String) (rs : List (Res α)) : Res (List α) :=
+  if anyUnmodelled rs then .unmodelled
+  else
+    match firstFailure (inOrder order names rs) with
+    | some f => f
+    | none =>
+      match firstFailure rs with
+      | some f => f
+      | none => .ok (okVals rs)
+
 mutual
 /-- `fromCtyValue(val, target)` where `val = Value{ty, p}` with the marks `ms`
 of the containers it was taken from still to be merged in (`pushMarks ms p`),
-and `target` is a settable zero of type `T`. -/
-def fromCtyP (ms : List String) (ty : Ty) (p : Payload) (T : GoTy) : Res GoVal :=
+and `target` is a settable zero of type `T`.  `S` is the schedule: `fromCtyObject` ranges over
+the Go map of attribute types, so which failing attribute is met first is Go's choice. -/
+def fromCtyP (S : Sched) (ms : List String) (ty : Ty) (p : Payload) (T : GoTy) : Res GoVal :=
   if T.base.isCval then
     -- deepTarget is a cty.Value: pass through as is (the only place unknowns are allowed)
     .ok (wrapPtr T.depth (.cval ⟨ty, pushMarks ms p⟩))
   else
     match p with
-    | .marked m r => fromCtyP (mergeMarks m ms) ty r T
+    | .marked m r => fromCtyP S (mergeMarks m ms) ty r T
     | .null =>
       if nullViaPtr ty then
         (if T.depth = 0 then .err "null value is not allowed"
@@ -727,17 +796,17 @@ def fromCtyP (ms : List String) (ty : Ty) (p : Payload) (T : GoTy) : Res GoVal :
          (match T.base with
           | .slice E =>
             if !ms.isEmpty then .panic "marked"
-            else mapRes (fun gs => wrapPtr T.depth (.slice gs)) (seqAll (fromCtyL ety cs E))
+            else mapRes (fun gs => wrapPtr T.depth (.slice gs)) (seqAll (fromCtyL S ety cs E))
           | .array n E =>
             if !ms.isEmpty then .panic "marked"
             else if cs.length ≠ n then .err "must be a list of length"
-            else mapRes (fun gs => wrapPtr T.depth (.arr gs)) (seqAll (fromCtyL ety cs E))
+            else mapRes (fun gs => wrapPtr T.depth (.arr gs)) (seqAll (fromCtyL S ety cs E))
           | _ => .err "list or set value is required")
        | .tuple etys =>
          (match T.base with
           | .struct tags tys =>
             if tys.length ≠ etys.length then .err "a tuple of n elements is required"
-            else mapRes (fun gs => wrapPtr T.depth (.struct tags gs)) (seqAll (fromCtyZ ms etys cs tys))
+            else mapRes (fun gs => wrapPtr T.depth (.struct tags gs)) (seqAll (fromCtyZ S ms etys cs tys))
           | .bigInt | .bigFloat =>
             -- big.Int / big.Float have only unexported fields: either the field count
             -- differs or the first positional target is not settable (`!CanSet()`)
@@ -750,18 +819,17 @@ def fromCtyP (ms : List String) (ty : Ty) (p : Payload) (T : GoTy) : Res GoVal :
          (match T.base with
           | .map E =>
             if !ms.isEmpty then .panic "marked"
-            else mapRes (fun gs => wrapPtr T.depth (.map ks gs)) (seqAll (fromCtyL ety cs E))
+            else mapRes (fun gs => wrapPtr T.depth (.map ks gs)) (seqAll (fromCtyL S ety cs E))
           | _ => .err "map or object value is required")
        | .object names atys _ =>
          if ks != names then .unmodelled
          else
            (match T.base with
             | .struct tags tys =>
-              if !tagsDistinct tags then .unmodelled
-              else if missingRequired names tags tys then .err "missing required attribute"
+              if missingRequired names (effTags tags) tys then .err "missing required attribute"
               else
-                mapRes (fun gs => wrapPtr T.depth (.struct tags (assemble names gs tags tys)))
-                  (combAll (fromCtyA ms names atys cs tags tys))
+                mapRes (fun gs => wrapPtr T.depth (.struct tags (assemble names gs (effTags tags) tys)))
+                  (combSched (S 0 names) names (fromCtyA S.next ms names atys cs (effTags tags) tys))
             | .bigInt =>
               if names.isEmpty then .ok (wrapPtr T.depth (zeroVal .bigInt)) else .err "unsupported attribute"
             | .bigFloat =>
@@ -775,36 +843,40 @@ def fromCtyP (ms : List String) (ty : Ty) (p : Payload) (T : GoTy) : Res GoVal :
           | .slice E =>
             if !ms.isEmpty then .panic "marked"
             else if cs.length ≥ 2 && (!isPrimTy ety || Payload.containsMarkedL cs) then .unmodelled
-            else mapRes (fun gs => wrapPtr T.depth (.slice gs)) (seqAll (setOrder ety cs (fromCtyL ety cs E)))
+            else mapRes (fun gs => wrapPtr T.depth (.slice gs)) (seqAll (setOrder ety cs (fromCtyL S ety cs E)))
           | .array n E =>
             if !ms.isEmpty then .panic "marked"
             else if cs.length ≠ n then .err "must be a set of length"
             else if cs.length ≥ 2 && (!isPrimTy ety || Payload.containsMarkedL cs) then .unmodelled
-            else mapRes (fun gs => wrapPtr T.depth (.arr gs)) (seqAll (setOrder ety cs (fromCtyL ety cs E)))
+            else mapRes (fun gs => wrapPtr T.depth (.arr gs)) (seqAll (setOrder ety cs (fromCtyL S ety cs E)))
           | _ => .err "list or set value is required")
        | _ => .unmodelled)
     | .caps => .unmodelled
     | .bad _ => .unmodelled
 /-- the elements of a list / map / set (the container is unmarked here) -/
-def fromCtyL (ety : Ty) : List Payload → GoTy → List (Res GoVal)
+def fromCtyL (S : Sched) (ety : Ty) : List Payload → GoTy → List (Res GoVal)
   | [], _ => []
-  | c :: cs, E => fromCtyP [] ety c E :: fromCtyL ety cs E
+  | c :: cs, E => fromCtyP S [] ety c E :: fromCtyL S ety cs E
 /-- tuple elements into struct fields, position-wise; `val.Index(i)` merges the tuple's marks in -/
-def fromCtyZ (ms : List String) : List Ty → List Payload → List GoTy → List (Res GoVal)
-  | ety :: etys, c :: cs, T :: tys => fromCtyP ms ety c T :: fromCtyZ ms etys cs tys
+def fromCtyZ (S : Sched) (ms : List String) : List Ty → List Payload → List GoTy → List (Res GoVal)
+  | ety :: etys, c :: cs, T :: tys => fromCtyP S ms ety c T :: fromCtyZ S ms etys cs tys
   | _, _, _ => []
 /-- object attributes into the fields carrying their names; `val.GetAttr(k)` merges the object's marks in -/
-def fromCtyA (ms : List String) : List String → List Ty → List Payload → List String → List GoTy →
+def fromCtyA (S : Sched) (ms : List String) : List String → List Ty → List Payload → List String → List GoTy →
     List (Res GoVal)
   | k :: names, aty :: atys, c :: cs, tags, tys =>
     (match lookupTag k tags tys with
      | none => .err "unsupported attribute"
-     | some T => fromCtyP ms aty c T) :: fromCtyA ms names atys cs tags tys
+     | some T => fromCtyP S ms aty c T) :: fromCtyA S ms names atys cs tags tys
   | _, _, _, _, _ => []
 end
 
-/-- `gocty.FromCtyValue(v, new(T))`, and what `*T` holds afterwards -/
-def fromCty (v : Value) (T : GoTy) : Res GoVal := fromCtyP [] v.ty v.v T
+/-- `gocty.FromCtyValue(v, new(T))` under the schedule `S`, and what `*T` holds afterwards -/
+def fromCtyS (S : Sched) (v : Value) (T : GoTy) : Res GoVal := fromCtyP S [] v.ty v.v T
+
+/-- … under the schedule that visits attributes in name order (for callers outside the C18 slice;
+by `C18.schedule_irrelevant_unmarked` the schedule is immaterial for values without marks) -/
+def fromCty (v : Value) (T : GoTy) : Res GoVal := fromCtyP idSched [] v.ty v.v T
 
 end Gocty
 end CtyModel
